@@ -985,7 +985,7 @@ where
     /// # Errors
     /// Fails because of any IO errors.
     pub async fn fsyncdata(&self) -> IOResult<()> {
-        self.inner.fsyncdata().await
+        self.inner.force_fsyncdata().await
     }
 
     /// Force updates active blob on new one to dump index of old one on disk and free RAM.
@@ -1284,6 +1284,13 @@ where
             }
         }
 
+        safe.fsyncdata().await
+    }
+
+    /// Explicit sync requested by the user: unlike the background `fsyncdata` it is not skipped
+    /// when the amount of dirty bytes is below the limit or when another sync is in progress
+    pub(crate) async fn force_fsyncdata(&self) -> IOResult<()> {
+        let safe = self.safe.read().await;
         safe.fsyncdata().await
     }
 
